@@ -16,13 +16,14 @@ N_QUICK, N_THOROUGH = 90000, 1000000
 T_QUICK, T_THOROUGH = 70, 1500
 FLOORS = {"scalar_echo_calls": 20000, "scalar_extremes": 3000, "object_address_calls": 5000, "addresses_after_growth": 800,
           "pointer_arg_calls": 3000, "xobject_array_pointer_calls": 200, "slice_pointer_calls": 200, "noncontiguous_2d_pointer_calls": 200, "refusals_checked": 3000, "calls_via_attribute_dispatch": 5000, "calls_after_rebuilding_a_kernel_name": 100,
-          "mixed_signature_calls": 500, "ctx:serial": 1000, "ctx:openmp": 1000}
+          "mixed_signature_calls": 500, "ctx:serial": 1000, "ctx:openmp": 1000,
+          "calls_with_count_zero": 2000, "empty_xobject_array_pointer_calls": 200}
 FLOORS.update({f"echo:{k}": 800 for k in SC})
 RULE = ("echo kernels compiled once per worker in a serial and an OpenMP ContextCpu: id_<T>(x) for the 10 scalar types, "
         "addr_of/first8 for struct/array/unionref objects, paddr/first for pointer-to-scalar arguments, a 7-argument mixed "
         "kernel; cases: scalar extremes and random values in several input forms come back bit-exact; objects at any "
         "offset, several per buffer, before and after forced growth arrive as pointer to their first byte; ndarray, "
-        "ndarray slices and xobject numeric arrays arrive as pointer to their first element; positional / missing / "
+        "ndarray slices and xobject numeric arrays (also without items) arrive as pointer to their first element; a kernel whose description names its count argument (n_threads=\"n\") is an ordinary call for every n, also 0; positional / missing / "
         "extra / mis-named arguments and arrays of the wrong element type are refused before the C function runs (call "
         "counter unchanged). distinct = (case kind, context, type, form).")
 ASSUMPTIONS = ["values offered for scalar arguments are representable in the declared C type"]
@@ -61,6 +62,11 @@ def setup(w):
         kern[f"paddr_{tn}"] = xo.Kernel(args=[xo.Arg(SC[tn], pointer=True, name="p")], ret=xo.Arg(xo.Int64))
         kern[f"first_{tn}"] = xo.Kernel(args=[xo.Arg(SC[tn], pointer=True, const=True, name="p")], ret=xo.Arg(SC[tn]))
         kern[f"store_{tn}"] = xo.Kernel(args=[xo.Arg(SC[tn], pointer=True, name="p"), xo.Arg(SC[tn], name="v")])
+    # a kernel whose description names the argument that carries the iteration count (n_threads="n"); its arguments and
+    # return value are delivered like any other, also when n is 0
+    src.append("double echo_n(double x, int64_t n, int64_t* out){ ncalls++; out[0] = n + 1; return x; }")
+    kern["echo_n"] = xo.Kernel(args=[xo.Arg(xo.Float64, name="x"), xo.Arg(xo.Int64, name="n"), xo.Arg(xo.Int64, pointer=True, name="out")],
+                               ret=xo.Arg(xo.Float64), n_threads="n")
     src.append("""void mix(int8_t a, double b, %s s, int64_t* p, uint64_t c, float d, %s arr, int64_t* out){
   ncalls++; out[0]=a; memcpy(&out[1],&b,8); out[2]=(int64_t)(char*)s; out[3]=(int64_t)(char*)p; memcpy(&out[4],&c,8);
   out[5]=0; memcpy(&out[5],&d,4); out[6]=(int64_t)(char*)arr; }""" % (PS._c_type, PA._c_type))
@@ -196,6 +202,23 @@ def run_case(w, rng):
                 ok = back is not None and (back.tobytes() == v.tobytes() or (dt.kind == "f" and back != back and v != v))
                 if not ok:
                     viol(f"scalar-not-faithful|{tn}", f"id_{tn}({arg!r}) returned {r!r}")
+            # the kernel whose description names its count argument: the call is an ordinary call for every n, also 0
+            for nn in (0, rng.choice([1, 3, 1000]), 0):
+                xx = rng.choice([1.5, -0.0, 1e300, float(rng.randint(-50, 50))])
+                out = np.full(2, -7, dtype=np.int64)
+                n0 = int(K["get_ncalls"]())
+                try:
+                    r = K["echo_n"](x=xx, n=nn, out=out)
+                except Exception as e:
+                    viol(f"echo-{exc_kind(e)}|count-argument", f"echo_n(x={xx!r}, n={nn}): {type(e).__name__}: {e}")
+                    continue
+                w.count("calls_of_kernel_with_named_count_argument")
+                if nn == 0:
+                    w.count("calls_with_count_zero")
+                if r is None or np.float64(r).tobytes() != np.float64(xx).tobytes():
+                    viol("return-value-not-faithful|count-argument", f"echo_n(x={xx!r}, n={nn}) returned {r!r}")
+                if int(out[0]) != nn + 1 or int(K["get_ncalls"]()) != n0 + 1:
+                    viol("c-function-did-not-run|count-argument", f"echo_n(n={nn}): out[0]={int(out[0])} (expected {nn + 1}), calls {int(K['get_ncalls']()) - n0}")
             w.case(["echo", cname, tn], sample=dict(info, type=tn) if rng.random() < 0.005 else None)
         elif kind == "objects":
             env = Env(rng, ctx=xo.ContextCpu() if rng.random() < 0.5 else ctx)
@@ -246,7 +269,7 @@ def run_case(w, rng):
             n = rng.randint(4, 12)
             base = (np.arange(n * 2) * 3 + 7).astype(dt)
             forms = ["ndarray", "slice", "strided", "2d", "2d-slice", "2d-block", "2d-transposed", "2d-fortran",
-                     "xobject", "xobject-in-struct"]
+                     "xobject", "xobject-in-struct", "xobject-empty"]
             form = rng.choice(forms)
             info["form"], info["type"] = form, tn
             if form == "ndarray":
@@ -284,6 +307,27 @@ def run_case(w, rng):
                 arr = np.asfortranarray(base.reshape(2, n))
                 addr, first = arr.ctypes.data, arr[0, 0]
                 w.count("noncontiguous_2d_pointer_calls")
+            elif form == "xobject-empty":
+                # an xobject array without items: the kernel gets the address where its data would begin
+                env = Env(rng, ctx=ctx)
+                try:
+                    A = rng.choice([SC[tn][:], SC[tn][:, 3], SC[tn][:, :]])
+                    pad = env.buf.allocate(rng.choice([8, 24]))
+                    arr = A(*([0] if A._shape != (None, None) else [0, rng.choice([0, 2])]), _buffer=env.buf)
+                    if rng.random() < 0.4:
+                        env.force_growth()
+                    want = base_of(env.buf) + int(arr._offset) + int(arr._data_offset)
+                    try:
+                        a = K[f"paddr_{tn}"](p=arr)
+                        w.count("empty_xobject_array_pointer_calls")
+                        if int(a) != want:
+                            viol("pointer-not-first-element|xobject-empty", f"kernel saw {int(a)}, the data would begin at {want}")
+                    except Exception as e:
+                        viol(f"pointer-arg-{exc_kind(e)}|xobject-empty", f"{type(e).__name__}: {e}")
+                finally:
+                    env.close()
+                w.case(["pointers", cname, tn, form], None)
+                return
             else:
                 env = Env(rng, ctx=ctx)
                 try:
